@@ -43,7 +43,7 @@ def main(tier, seed, replay):
             args = ["-mode=c19", "-seed=%d" % seed, "-n=%d" % n, "-skylight=" + sky, "-scratch=" + scratch]
             extra = []
             if replay:
-                extra = [[l.strip() for l in open(replay) if "|=>|" in l]]
+                args.append("-replay=" + os.path.abspath(replay))
             corpus = os.path.join(L.VERIF, "corpus", PROP)
             if os.path.isdir(corpus):
                 for f in sorted(os.listdir(corpus)):
